@@ -3,25 +3,11 @@
    The key text is json.dumps(binding, sort_keys=True); the model's key is the value that text
    denotes (dict sorted by key at every depth), json.dumps/loads being trusted. *)
 From Coq Require Import List Ascii String Bool Arith ZArith.
-From TC Require Import PyStr Value.
+From TC Require Import PyStr Value Dict.
 Import ListNotations.
 
 Inductive pkind := PosOrKw | KwOnly.
 Record param := { p_name : str; p_kind : pkind; p_default : option value }.
-
-(* dict[k] = v : replace in place or append *)
-Fixpoint dset (k : str) (v : value) (d : list (str * value)) : list (str * value) :=
-  match d with
-  | [] => [(k, v)]
-  | (k', v') :: r => if str_eqb k k' then (k, v) :: r else (k', v') :: dset k v r
-  end.
-Fixpoint dget (k : str) (d : list (str * value)) : option value :=
-  match d with
-  | [] => None
-  | (k', v) :: r => if str_eqb k k' then Some v else dget k r
-  end.
-Definition dhas (k : str) (d : list (str * value)) : bool :=
-  match dget k d with Some _ => true | None => false end.
 
 (* the loop over signature(method).parameters (self already skipped; i counts from 0) *)
 Fixpoint bind_go (sig : list param) (i : nat) (args : list value) (kw : list (str * value))
